@@ -24,4 +24,47 @@ theorem c17_schema (L : Laws mk view ord) (vs : List (Val R)) (c : R) (h : seria
   obtain ⟨hs, hmk⟩ := ser_stack L vs bt hbt
   rw [L.view_mk _ _ _ hmk]; exact hs
 
+
+/-- a concrete instance of the hypotheses of `c17_schema`: cells as trees, `mk` never fails; a three-entry tuple,
+    a small and a large integer and a `vmc_quit` continuation serialise, so `c17_schema` speaks about them -/
+def mkTree (b : Bits) (r : List Cell) : Option Cell := some (.mk (-1) b r)
+def viewTree : Cell → Bits × List Cell | .mk _ b r => (b, r)
+def ordTree : Cell → Bool | .mk k _ _ => k == -1
+
+theorem treeLaws : Laws mkTree viewTree ordTree :=
+  ⟨fun b r c h => by simp [mkTree] at h; subst h; rfl, fun b r c h => by simp [mkTree] at h; subst h; rfl⟩
+
+/-- stack (top first): quit(5), 2^63, −2^63, tuple (1, 2, 3) -/
+def sample : List (Val Cell) :=
+  [.cont (.quit 5), .int (2 ^ 63), .int (-(2 ^ 63)), .tuple [.int 3, .int 2, .int 1]]
+
+example : (serialize mkTree sample).isSome = true := by decide +kernel
+
+example : ∃ c, serialize mkTree sample = some c ∧ IsStack viewTree ordTree sample (viewTree c).1 (viewTree c).2 := by
+  have h : (serialize mkTree sample).isSome = true := by decide +kernel
+  obtain ⟨c, hc⟩ := Option.isSome_iff_exists.mp h
+  exact ⟨c, hc, c17_schema treeLaws sample c hc⟩
+
+/-- `c17_pure`: in the model of what a successful `VmStack.serialize(data)` leaves in the caller's objects
+    (`serializeSt`, current code path `pop = false`), the caller's values after the call are the values before
+    the call — for every stack, tuple nesting and continuation. -/
+theorem c17_pure (mk : Bits → List R → Option R) (vs : List (Val R)) : (serializeSt false mk vs).2 = vs := by
+  simp [serializeSt, postList_id]
+
+/-- hence serialising the same objects twice gives the same cell (or fails twice) -/
+theorem c17_twice (mk : Bits → List R → Option R) (vs : List (Val R)) :
+    (serializeSt false mk (serializeSt false mk vs).2).1 = (serializeSt false mk vs).1 := by
+  rw [c17_pure]
+
+/-- non-vacuity of the state model: on the code before fix F20 (`pop = true`) the same model shows the defect —
+    the tuple (1, 2, 3) is left as (1) … -/
+example : (serializeSt true mkTree [Val.tuple [.int 3, .int 2, .int 1]]).2 = [Val.tuple [.int 1]] := by
+  simp [serializeSt, postList, postVal, postTuple, postTupleRef]
+
+/-- … and the second call returns a different cell (3 references the first time, 2 the second) -/
+example : ((serializeSt true mkTree [Val.tuple [.int 3, .int 2, .int 1]]).1.map (fun c => (viewTree c).2.length) = some 3)
+    ∧ ((serializeSt true mkTree (serializeSt true mkTree [Val.tuple [.int 3, .int 2, .int 1]]).2).1.map
+        (fun c => (viewTree c).2.length) = some 2) := by
+  decide +kernel
+
 end TonVerif.C17
